@@ -119,7 +119,13 @@ partial def asModelD (j : Json) : Except String ModelD := do
               let m ← asModelD t
               pure (some m)
         pure (FieldD.elem name loc fns isList nillable wrapper typ)
-  pure (ModelD.mk cls metaName hasNs ns fields)
+  let ownMeta := match j.getObjValD "own_meta" with | .bool b => b | _ => true
+  let base ← match j.getObjValD "base" with
+    | .null => pure none
+    | b => do
+        let bm ← asModelD b
+        pure (some bm)
+  pure (ModelD.mk cls metaName hasNs ns fields ownMeta base)
 
 partial def asIV (j : Json) : Except String IV :=
   match j with
